@@ -188,8 +188,9 @@ func C23(c *Ctx) {
 		vc := Named("raftstore/store.(*Store).validateCommand")
 		lr := Named("raftstore/peer.(*Peer).LinearizableRead")
 		wa := Named("raftstore/peer.(*Peer).WaitApplied")
-		beforeOK(c, r1, fn, "validateCommand", vc, "LinearizableRead", lr, 1)
-		beforeOK(c, r1, fn, "LinearizableRead", lr, "WaitApplied", wa, 1)
+		// the barrier (LinearizableRead → WaitApplied) may live in a helper of ReadCommand whose
+		// success implies both steps
+		succChain(c, r1, fn, []chainStep{{"validateCommand", vc, nil}, {"LinearizableRead", lr, nil}, {"WaitApplied", wa, nil}}, 1)
 		// applier: dynamic call through field Store.commandApplier
 		var applies []ssa.Instruction
 		AllInstrs(fn, false, func(in ssa.Instruction) {
@@ -200,22 +201,28 @@ func C23(c *Ctx) {
 			}
 		})
 		c.Decide(len(applies) == 1, r1, key(fn, "has:commandApplier-call"), fn.Pos(), 1, "single local apply", fmt.Sprintf("%d commandApplier calls in ReadCommand", len(applies)))
-		was := Calls(fn, false, wa)
-		lrs := Calls(fn, false, lr)
+		was := verifySites(c, fn, wa, 1)
+		lrs := verifySites(c, fn, lr, 1)
+		c.Decide(len(lrs) >= 1, r1, key(fn, "has:LinearizableRead"), fn.Pos(), len(lrs)+1, "read barrier present", "expected at least 1 call(s) to LinearizableRead in (*raftstore/store.Store).ReadCommand, found 0")
+		c.Decide(len(was) >= 1, r1, key(fn, "has:WaitApplied"), fn.Pos(), len(was)+1, "apply wait present", "expected at least 1 call(s) to WaitApplied in (*raftstore/store.Store).ReadCommand, found 0")
 		for i, a := range applies {
 			succOK(c, r1, key(fn, fmt.Sprintf("commandApplier[%d]<-ok(WaitApplied)", i+1)), fn, was, "WaitApplied", a, "local read")
 			succOK(c, r1, key(fn, fmt.Sprintf("commandApplier[%d]<-ok(LinearizableRead)", i+1)), fn, lrs, "LinearizableRead", a, "local read")
 		}
-		// waited index == LinearizableRead's index
-		if len(was) > 0 && len(lrs) > 0 {
-			arg := was[0].Common().Args[len(was[0].Common().Args)-1]
+		// waited index == LinearizableRead's index (in whichever function holds both calls)
+		holder := fn
+		if len(Calls(fn, false, wa)) == 0 && len(was) > 0 {
+			holder = StaticFn(was[0].Common())
+		}
+		if hw, hl := Calls(holder, false, wa), Calls(holder, false, lr); len(hw) > 0 && len(hl) > 0 {
+			arg := hw[0].Common().Args[len(hw[0].Common().Args)-1]
 			ok := false
-			for _, r := range *lrs[0].Value().Referrers() {
+			for _, r := range *hl[0].Value().Referrers() {
 				if ex, isEx := r.(*ssa.Extract); isEx && ex.Index == 0 && ex == arg {
 					ok = true
 				}
 			}
-			c.Decide(ok, r1, key(fn, "WaitApplied#index=ReadIndex"), was[0].Pos(), 1, "waits for exactly the read index", "WaitApplied is not given the index returned by LinearizableRead")
+			c.Decide(ok, r1, key(fn, "WaitApplied#index=ReadIndex"), hw[0].Pos(), 1, "waits for exactly the read index", "WaitApplied is not given the index returned by LinearizableRead")
 		}
 		// region response (not leader / epoch) returned before anything else
 		// the read-only test precedes the apply
@@ -226,7 +233,9 @@ func C23(c *Ctx) {
 		}
 	}
 	if fn := c.Fn("raftstore/peer", "Peer.LinearizableRead"); fn != nil {
-		sri := need(c, r1, fn, false, "startReadIndex", Named("raftstore/peer.(*Peer).startReadIndex"), 1)
+		sri := Calls(fn, false, Named("raftstore/peer.(*Peer).startReadIndex"))
+		inlined := len(sri) == 0 && len(Calls(fn, false, Named("go.etcd.io/raft/v3.(*RawNode).ReadIndex"))) > 0
+		c.Decide(len(sri) >= 1 || inlined, r1, key(fn, "has:startReadIndex"), fn.Pos(), len(sri)+1, "the ReadIndex round trip is started", "expected at least 1 call(s) to startReadIndex (or an inlined node.ReadIndex) in (*raftstore/peer.Peer).LinearizableRead, found 0")
 		n := 0
 		for _, r := range SuccessReturns(fn) {
 			if fn.Recover != nil && r.Block() == fn.Recover {
@@ -241,12 +250,19 @@ func C23(c *Ctx) {
 			good := false
 			if len(sri) > 0 {
 				good = recvFromResultOf(v, sri[0].Value(), 1)
+			} else if inlined {
+				// the waiter channel is the one registered in pendingReads
+				good = recvFromRegisteredChan(fn, v)
 			}
 			c.Decide(good, r1, key(fn, fmt.Sprintf("success-return[%d]#index<-readIndex-channel", n)), r.Pos(), 2, "the index returned on success is the one received from the ReadIndex waiter channel", "LinearizableRead can return success with an index that did not come from the ReadIndex round trip (no quorum confirmation of leadership: a deposed leader serves stale reads)")
 		}
 		c.Decide(n >= 1, r1, key(fn, "has:success-return"), fn.Pos(), 1, "success return found", "no success return found in LinearizableRead")
 	}
-	if fn := c.Fn("raftstore/peer", "Peer.startReadIndex"); fn != nil {
+	sriFn := c.FnOpt("raftstore/peer", "Peer.startReadIndex")
+	if sriFn == nil {
+		sriFn = c.Fn("raftstore/peer", "Peer.LinearizableRead") // inlined
+	}
+	if fn := sriFn; fn != nil {
 		reg := fieldStoresIn(fn, false, "raftstore/peer.Peer", "pendingReads")
 		ri := need(c, r1, fn, false, "node.ReadIndex", Named("go.etcd.io/raft/v3.(*RawNode).ReadIndex"), 1)
 		for i, r := range ri {
@@ -681,10 +697,26 @@ func nilValueEdges(fn *ssa.Function, v ssa.Value) map[[2]*ssa.BasicBlock]bool {
 // recvFromResultOf: v is the value received (select case or <-ch) from the channel that is
 // result #idx of call.
 func recvFromResultOf(v ssa.Value, call ssa.Value, idx int) bool {
-	isCh := func(ch ssa.Value) bool {
+	return recvFromChan(v, func(ch ssa.Value) bool {
 		ex, ok := ch.(*ssa.Extract)
 		return ok && ex.Tuple == call && ex.Index == idx
-	}
+	})
+}
+
+// recvFromRegisteredChan: v is received from the channel that fn registered in Peer.pendingReads.
+func recvFromRegisteredChan(fn *ssa.Function, v ssa.Value) bool {
+	reg := map[ssa.Value]bool{}
+	AllInstrs(fn, false, func(in ssa.Instruction) {
+		if mu, ok := in.(*ssa.MapUpdate); ok {
+			if o, f, ok := FieldOf(mu.Map); ok && o == "raftstore/peer.Peer" && f == "pendingReads" {
+				reg[mu.Value] = true
+			}
+		}
+	})
+	return recvFromChan(v, func(ch ssa.Value) bool { return reg[ch] })
+}
+
+func recvFromChan(v ssa.Value, isCh func(ssa.Value) bool) bool {
 	switch x := v.(type) {
 	case *ssa.UnOp:
 		if x.Op == token.ARROW {
